@@ -138,11 +138,15 @@ class DumpMixin(AbstractDumper, BaseDumpHook):
 
     @staticmethod
     def dump_with_datetime(o: datetime, *_):
-        return o.isoformat().replace('+00:00', 'Z', 1)
+        # write a UTC offset as `Z`; only a *trailing* `+00:00` is a UTC
+        # offset (`+00:00:30` is a sub-minute offset, not UTC)
+        s = o.isoformat()
+        return s[:-6] + 'Z' if s.endswith('+00:00') else s
 
     @staticmethod
     def dump_with_time(o: time, *_):
-        return o.isoformat().replace('+00:00', 'Z', 1)
+        s = o.isoformat()
+        return s[:-6] + 'Z' if s.endswith('+00:00') else s
 
     @staticmethod
     def dump_with_date(o: date, *_):
